@@ -3,6 +3,7 @@ sys.path.insert(0, str(pathlib.Path(__file__).resolve().parent.parent))
 from vlib.vextract import VUnit, Fn, Const, Raw, Rw, Enum, Block, Struct
 
 PRE = r'''
+global size_of usize == 8;
 #[derive(Clone, Copy)] pub struct StrH { pub g: Ghost<int> }
 #[derive(Clone, Copy)] pub struct SpanH { pub g: Ghost<int> }
 pub struct PartsH { pub g: Ghost<int> }
@@ -57,6 +58,27 @@ pub open spec fn children<'ast>(n: Node<'ast>) -> Seq<Node<'ast>> {
         },
     }
 }
+// --- the runtime's stack probe
+pub struct RtErr { pub g: Ghost<int> }
+pub struct Rs { pub stack_base: usize, pub sp: Ghost<usize>, pub probed: Ghost<bool> }
+pub struct ValOut { pub g: Ghost<int> }
+pub struct ExprIn { pub g: Ghost<int> }
+impl ExprIn { #[verifier::external_body] pub fn span(&self) -> (r: SpanH) { unimplemented!() } }
+pub closed spec fn budget() -> int { STACK_BUDGET as int }        // the real constant (non-wasm definition)
+impl Rs {
+    // `&raw const probe as usize`: the address of a local of check_stack's own frame, i.e. (about) the current stack pointer
+    #[verifier::external_body] pub fn probe_address(&self) -> (r: usize) ensures r == self.sp@ { unimplemented!() }
+    #[verifier::external_body] pub fn stack_overflow(&self, s: SpanH) -> (r: RtErr) { unimplemented!() }
+    // everything eval_expr does after the probe (the dispatch on the expression, which recurses)
+    #[verifier::external_body] pub fn eval_dispatch(&mut self, e: &ExprIn) -> (r: Result<ValOut, RtErr>)
+        requires old(self).probed@                                  // never entered without a probe of THIS activation
+    { unimplemented!() }
+}
+// check_stack by its contract, recording that this activation has probed
+#[verifier::external_body]
+fn check_stack_probe(me: &mut Rs, s: SpanH) -> (r: Result<(), RtErr>) ensures r is Ok ==> final(me).probed@ { unimplemented!() }
+#[verifier::external_body]
+fn wrapping_sub(a: usize, b: usize) -> (r: usize) ensures r == (if a >= b { a - b } else { a + 0x1_0000_0000_0000_0000 - b }) { a.wrapping_sub(b) }
 // --- the parser's own recursion guard
 pub struct Pg { pub nesting: u32, pub gave_up: bool, pub deepest_call: Ghost<nat> }
 pub struct ExprOut { pub g: Ghost<int> }
@@ -85,6 +107,7 @@ UNIT = VUnit(
              "that 256 parser activations and a 512-deep tree fit the native stack with every frame size of the resolver, the analysis passes and a debug build is NOT decided (no notion of frame size): measured instead, DESIGN.md 0.5"],
     items=[
         Const("MAX_PARSE_NESTING"), Const("MAX_TREE_DEPTH"),
+        Const("KIBI", source="src/helpers.rs"), Const("MEBI", source="src/helpers.rs"), Const("STACK_BUDGET", source="src/runtime.rs", nth=2),   # the non-wasm definition
         Enum("BinaryOp"), Enum("UnaryOp"),
         Enum("Expr", derive="", generics="<'ast>", rewrites=[
             Rw("R12", r"ExprRef<'ast>", "&'ast Expr<'ast>"), Rw("R12", r"\bSpan\b", "SpanH"), Rw("R12", r"&'ast str", "StrH"),
@@ -122,5 +145,22 @@ UNIT = VUnit(
                         Rw("R11", r"for &arg in args\.args \{\s*stack\.push\(\(Node::Expr\(arg\), below\)\);\s*\}", "stack.push_exprs(&args.args, below);", min_matches=1),
                         Rw("R11", r"for &element in \*elements \{\s*stack\.push\(\(Node::Expr\(element\), below\)\);\s*\}", "stack.push_exprs(&elements.v, below);", min_matches=1)],
               real_name="Parser::find_too_deep (one step of the explicit-stack walk)"),
+        # the probe: StackOverflow exactly when the stack has grown more than the budget below the base recorded at run entry (the stack grows
+        # downwards; a probe above the base wraps to a huge distance and is reported too)
+        Fn("check_stack", source="src/runtime.rs", impl="impl Runtime",
+           sig="fn check_stack(me: &Rs, span: SpanH) -> (res: Result<(), RtErr>)", expect_sig=r"fn check_stack\(&self, span: Span\) -> Result<\(\), RuntimeError>",
+           ensures=["me.stack_base >= me.sp@ ==> (res is Err <==> me.stack_base - me.sp@ > budget())", "me.stack_base < me.sp@ && me.sp@ - me.stack_base < 0x1_0000_0000_0000_0000 - budget() ==> res is Err"],
+           rewrites=[Rw("R13", r"let probe = 0u8;", "", min_matches=1), Rw("R5", r"&raw const probe as usize", "me.probe_address()", min_matches=1),
+                     Rw("R5", r"self\.stack_base\.wrapping_sub\(current\)", "wrapping_sub(me.stack_base, current)", min_matches=1),
+                     Rw("R6", r"Err\(RuntimeError::new\(RuntimeErrorKind::StackOverflow, span\)\)", "Err(me.stack_overflow(span))", min_matches=1)],
+           vacuity="-", real_name="Runtime::check_stack"),
+        # every activation of eval_expr probes the stack before it does anything else (so recursion through calls, operators, arguments and
+        # elements is cut off by the budget, not by the end of the native stack)
+        Fn("eval_expr", source="src/runtime.rs", impl="impl Runtime",
+           sig="fn eval_expr(me: &mut Rs, expr: &ExprIn) -> (res: Result<ValOut, RtErr>)", expect_sig=r"fn eval_expr\(&mut self, expr: ExprRef<'a>\) -> Result<Value<'a>, RuntimeError>",
+           requires=["!old(me).probed@"],
+           rewrites=[Rw("R9", r"self\.check_stack\(expr\.span\(\)\)\?;", "check_stack_probe(me, expr.span())?;", min_matches=1),
+                     Rw("R11", r"match expr \{.*\n        \}", "me.eval_dispatch(expr)", min_matches=1)],
+           vacuity="-", real_name="Runtime::eval_expr (the probe comes first)"),
     ],
 )
